@@ -7,6 +7,7 @@ import sys
 import time
 
 VERIF = os.path.dirname(os.path.dirname(os.path.abspath(__file__)))
+OUT = os.environ.get('VERIF_OUT', VERIF)        # evidence / replay files (elsewhere only when a seeded change is tried on a scratch copy)
 KNOWN = os.path.join(VERIF, 'known_findings.json')
 
 
@@ -45,7 +46,7 @@ class Ctx:
 
 
 def write_replay(prop, key, payload):
-    d = os.path.join(VERIF, 'replay')
+    d = os.path.join(OUT, 'replay')
     os.makedirs(d, exist_ok=True)
     h = hashlib.sha1(key.encode()).hexdigest()[:10]
     path = os.path.join(d, '%s-%s.json' % (prop, h))
@@ -101,8 +102,8 @@ def finish(ctx, level, coverage, assumptions):
               violations=len(new))
     ev['coverage']['known_findings_reproduced'] = sorted(seen)
     ev['coverage']['new_violation_keys'] = [k for k, _ in new][:50]
-    os.makedirs(os.path.join(VERIF, 'evidence'), exist_ok=True)
-    with open(os.path.join(VERIF, 'evidence', ctx.prop + '.json'), 'w') as f:
+    os.makedirs(os.path.join(OUT, 'evidence'), exist_ok=True)
+    with open(os.path.join(OUT, 'evidence', ctx.prop + '.json'), 'w') as f:
         json.dump(ev, f, indent=1, default=str)
     print('# %s %s: %d new violation key(s), %d known finding(s) reproduced, %.1fs'
           % (ctx.prop, ctx.tier, len(new), len(seen), time.time() - ctx.t0), flush=True)
